@@ -253,10 +253,8 @@ def r1(ctx):
                 asn = vf.expr(fn, lk.args[1])
                 if vf.mentions(asn, lambda x: isinstance(x, tuple) and x[0] == "load" and vf.last_field(x[1]) == "rtr_secure_path_seg.asn"):
                     by_lookup = True
-        guards = [(vf.expr(fn, g), t) for g, t, br in es.guards_of(fn, c)]
-        by_guard = any(g[0] == "icmp" and ((g[1] == "eq" and t) or (g[1] == "ne" and not t)) and
-                       any(x[0] == "load" and vf.last_field(x[1]) == "spki_record.asn" for x in (g[2], g[3])) and
-                       any(x[0] == "load" and vf.last_field(x[1]) == "rtr_secure_path_seg.asn" for x in (g[2], g[3])) for g, t in guards)
+        by_guard = bool(es.Guards(fn, c).find_eq(lambda x: x[0] == "load" and vf.last_field(x[1]) == "spki_record.asn",
+                                                   lambda y: y[0] == "load" and vf.last_field(y[1]) == "rtr_secure_path_seg.asn"))
         ctx.check(by_lookup or by_guard, "C11.R1", "key-selected-by-segment-AS", c.loc(),
                   "key %s: looked up by the segment's AS: %s, guarded by key.asn == segment.asn: %s" % (vf.show(rec), by_lookup, by_guard),
                   key="C11.R1:rtr_bgpsec_validate_as_path:key-as")
